@@ -306,3 +306,144 @@ Proof.
   rewrite Efmt3 at 1. rewrite rd_at, rd_cons0.
   f_equal. f_equal. rewrite !app_length. simpl. rewrite app_length. simpl. lia.
 Qed.
+
+(* ------------------------------------------------------------------------------------------ *)
+(* well-formed items *)
+
+Lemma unparse_cons : forall it r, unparse (it :: r) = unparse_item it ++ unparse r.
+Proof. reflexivity. Qed.
+
+Lemma mid_chars_passes : forall m, In m mid_chars -> passes m.
+Proof.
+  intros m H. pose proof mid_chars_pass as P. rewrite forallb_forall in P.
+  specialize (P m H). apply andb_prop in P. destruct P as [P1 P2].
+  split.
+  - destruct (strchr_hit print_convs m); [discriminate|reflexivity].
+  - intros E. subst. discriminate P2.
+Qed.
+
+Lemma conv_stops : forall c, In c (DOLLAR :: std_convs) -> strchr_hit print_convs c = true /\ c <> 0 /\ c <> PCT.
+Proof.
+  intros c H. pose proof std_convs_stop as P. rewrite forallb_forall in P.
+  specialize (P c H). apply andb_prop in P. destruct P as [P P3]. apply andb_prop in P. destruct P as [P1 P2].
+  repeat split.
+  - exact P1.
+  - intros E. subst. discriminate P2.
+  - intros E. subst. discriminate P3.
+Qed.
+
+Lemma wf_conv_mid : forall f w p l c, wf_item (Conv f w p l c) = true -> Forall passes (conv_mid f w p l).
+Proof.
+  intros f w p l c H. cbn [wf_item] in H.
+  repeat (apply andb_prop in H; destruct H as [H ?]).
+  rename H into Hf, H0 into Hc, H1 into Hl, H2 into Hp, H3 into Hw.
+  unfold conv_mid. repeat (apply Forall_app; split).
+  - apply all_in_Forall in Hf. apply Forall_impl with (2 := Hf). intros a Ha.
+    apply mid_chars_passes. unfold mid_chars. apply in_or_app. left. exact Ha.
+  - apply all_in_Forall in Hw. apply Forall_impl with (2 := Hw). intros a Ha.
+    apply mid_chars_passes. unfold mid_chars. apply in_or_app. right. apply in_or_app. left. exact Ha.
+  - destruct p as [|d r]; [constructor|]. cbn [wf_prec] in Hp. apply andb_prop in Hp. destruct Hp as [Hd Hr].
+    apply Nat.eqb_eq in Hd. subst d. constructor.
+    + apply mid_chars_passes. unfold mid_chars. apply in_or_app. right. apply in_or_app. right. left. reflexivity.
+    + apply all_in_Forall in Hr. apply Forall_impl with (2 := Hr). intros a Ha.
+      apply mid_chars_passes. unfold mid_chars. apply in_or_app. right. apply in_or_app. left. exact Ha.
+  - rewrite existsb_exists in Hl. destruct Hl as [l' [Hin He]]. apply list_eqb_eq in He. subst l'.
+    apply Forall_forall. intros a Ha. apply mid_chars_passes. unfold mid_chars.
+    apply in_or_app. right. apply in_or_app. right. right. apply in_concat. exists l. split; assumption.
+Qed.
+
+Lemma wf_conv_char : forall f w p l c, wf_item (Conv f w p l c) = true -> In c std_convs.
+Proof.
+  intros f w p l c H. cbn [wf_item] in H. apply andb_prop in H. destruct H as [_ H]. apply memb_In. exact H.
+Qed.
+
+Lemma wf_lit : forall s, wf_item (Lit s) = true -> s <> [] /\ Forall (fun c => c <> 0 /\ c <> PCT) s.
+Proof.
+  intros s H. cbn [wf_item] in H. apply andb_prop in H. destruct H as [Hn Hs]. split.
+  - intros E. subst. discriminate Hn.
+  - apply Forall_forall. intros c Hc. rewrite forallb_forall in Hs. specialize (Hs c Hc).
+    apply andb_prop in Hs. destruct Hs as [A B]. split; intros E; subst; discriminate.
+Qed.
+
+(* what may follow a literal: nothing, or an item that is not a literal (its text starts with '%') *)
+Definition follows_ok (it : item) (rest : list item) : Prop :=
+  match rest with it' :: _ => is_lit it && is_lit it' = false | [] => True end.
+
+Lemma wf_items_cons : forall it rest, wf_items (it :: rest) = true ->
+  wf_item it = true /\ follows_ok it rest /\ wf_items rest = true.
+Proof.
+  intros it rest H. cbn [wf_items] in H. apply andb_prop in H. destruct H as [H H3].
+  apply andb_prop in H. destruct H as [H1 H2]. repeat split; try assumption.
+  unfold follows_ok. destruct rest as [|it' r]; [exact I|].
+  destruct (is_lit it && is_lit it'); [discriminate|reflexivity].
+Qed.
+
+Lemma nonlit_starts_pct : forall it r, is_lit it = false -> exists t, unparse (it :: r) = PCT :: t.
+Proof.
+  intros it r H. rewrite unparse_cons. destruct it; try discriminate; cbn [unparse_item app]; eexists; reflexivity.
+Qed.
+
+Lemma stops_after_lit : forall s rest, follows_ok (Lit s) rest -> stops_lit (unparse rest).
+Proof.
+  intros s rest H. destruct rest as [|it' r]; [exact I|].
+  unfold follows_ok in H. cbn [is_lit andb] in H.
+  destruct (nonlit_starts_pct it' r H) as [t E]. rewrite E. right. reflexivity.
+Qed.
+
+Lemma next_token_item : forall it pre rest,
+  wf_item it = true -> follows_ok it rest ->
+  next_token (pre ++ unparse (it :: rest)) (length pre) = Ok (tok_of it, length pre + length (unparse_item it)).
+Proof.
+  intros it pre rest Hwf Hfo. rewrite unparse_cons.
+  destruct it as [s| |f w p l c|].
+  - apply wf_lit in Hwf. destruct Hwf as [Hne Hs]. cbn [unparse_item tok_of].
+    apply next_token_lit; try assumption. eapply stops_after_lit; eauto.
+  - cbn [unparse_item tok_of]. apply next_token_pct.
+  - pose proof (wf_conv_mid _ _ _ _ _ Hwf) as Hm. pose proof (wf_conv_char _ _ _ _ _ Hwf) as Hc.
+    destruct (conv_stops c (or_intror Hc)) as [H1 [H2 H3]].
+    cbn [unparse_item tok_of]. apply next_token_spec; assumption.
+  - destruct (conv_stops DOLLAR (or_introl eq_refl)) as [H1 [H2 H3]].
+    cbn [unparse_item tok_of]. apply (next_token_spec pre [] DOLLAR (unparse rest)); try assumption. constructor.
+Qed.
+
+Lemma unparse_item_nonempty : forall it, wf_item it = true -> 1 <= length (unparse_item it).
+Proof.
+  intros it H. destruct it; cbn [unparse_item length]; try lia.
+  apply wf_lit in H. destruct H as [Hne _]. destruct s; [contradiction|simpl; lia].
+Qed.
+
+Lemma unparse_length : forall items, wf_items items = true -> length items <= length (unparse items).
+Proof.
+  induction items as [|it r IH]; intros H; [simpl; lia|].
+  apply wf_items_cons in H. destruct H as [H1 [_ H3]].
+  rewrite unparse_cons, app_length. pose proof (unparse_item_nonempty it H1). specialize (IH H3). simpl. lia.
+Qed.
+
+(* ------------------------------------------------------------------------------------------ *)
+(* the scanner recovers the items *)
+
+Lemma tok_of_proper : forall it, tok_of it <> TEnd /\ tok_of it <> TBad.
+Proof. intros it. destruct it; split; discriminate. Qed.
+
+Lemma scan_loop_items : forall items pre fuel,
+  wf_items items = true -> length items < fuel ->
+  scan_loop (pre ++ unparse items) (length pre) fuel = Ok (map tok_of items).
+Proof.
+  induction items as [|it r IH]; intros pre fuel Hwf Hf.
+  - destruct fuel as [|f]; [simpl in Hf; lia|]. cbn [scan_loop unparse map concat].
+    rewrite next_token_end. reflexivity.
+  - destruct fuel as [|f]; [simpl in Hf; lia|].
+    apply wf_items_cons in Hwf. destruct Hwf as [H1 [H2 H3]].
+    cbn [scan_loop]. rewrite next_token_item by assumption.
+    rewrite unparse_cons.
+    replace (pre ++ unparse_item it ++ unparse r) with ((pre ++ unparse_item it) ++ unparse r) by (rewrite app_assoc; reflexivity).
+    replace (length pre + length (unparse_item it)) with (length (pre ++ unparse_item it)) by (rewrite app_length; reflexivity).
+    rewrite IH; [|assumption|simpl in Hf; lia].
+    destruct it; reflexivity.
+Qed.
+
+Theorem scan_unparse : forall items, wf_items items = true -> scan (unparse items) = Ok (map tok_of items).
+Proof.
+  intros items H. unfold scan, loop_fuel.
+  apply (scan_loop_items items [] _ H). pose proof (unparse_length items H). lia.
+Qed.
